@@ -44,3 +44,9 @@ build_seamed() {
   export VERIF_MAP_SITES=$BUILD/map-sites.json
   cat "$BUILD/maprw.log"
 }
+
+# C20 race-detector probe (thorough tier): the simulator built with -race from the unmodified repository.
+build_race() {
+  ( cd "$ROOT/sim" && GOTOOLCHAIN=local go build -race -modfile="$BUILD/sim.mod" -tags verif -o "$BUILD/verifsim-race" ./cmd/verifsim ) 2> "$BUILD/race-build.log" || { echo "harness: -race build failed" >&2; tail -n 30 "$BUILD/race-build.log" >&2; return 2; }
+  export VERIF_RACE_BIN=$BUILD/verifsim-race
+}
